@@ -31,28 +31,23 @@ def fileFields (m : M) : FileFields :=
 def fieldsOfDiffLine (name : Option Str) (l : L) : FileFields :=
   ⟨name.getD [], name.getD [], .change, .change, l.text, some (name.getD [], name.getD []), none⟩
 
-/-- `section_reset`: whatever the machine held before, after a handled `diff ` line the per-file
-fields depend on that line only, and no removed/added line of the previous section is still
-waiting in the line buffers. -/
+/-- `section_reset`: whatever the machine held before, after a `diff ` line the per-file fields
+depend on that line only, and no removed/added line of the previous section is still waiting in
+the line buffers. -/
 theorem section_reset {cfg : Cfg} {m m' : M} {l : L} {b : Bool}
     (hl : startsWith l.text Generated.Markers.diffLine = true)
     (e : handleDiffHeaderDiff cfg m l = .ok (b, m')) :
     b = true ∧ m'.minus = [] ∧ m'.plus = [] ∧
-    ∃ name, repeatedFilePath l.text
-        (if startsWith l.text Generated.Markers.diffGit = true
-          then l.graphemes.drop Generated.Markers.diffGit.length else []) = .ok name ∧
-      fileFields m' = fieldsOfDiffLine name l := by
+      fileFields m' = fieldsOfDiffLine (repeatedFilePath l.text (diffLineGraphemes l)) l := by
   unfold handleDiffHeaderDiff at e
   simp only [hl, Bool.not_true, Bool.false_eq_true, if_false] at e
-  simp only [bind_ok, pure, Except.pure, Except.ok.injEq] at e
-  obtain ⟨m2, e2, name, hn, sk, _, e⟩ := e
-  have hq : m2.minus = [] ∧ m2.plus = [] := pendingDiffName_quiet cfg (by simp) (by simp) e2
+  have hq := pendingDiffName_quiet cfg (m := { flushMP m with st := diffLineState l }) (by simp) (by simp)
   split at e
   · cases e
-    exact ⟨rfl, hq.1, hq.2, name, hn, rfl⟩
+    exact ⟨rfl, hq.1, hq.2, rfl⟩
   · cases e
-    refine ⟨rfl, by simp [emitLineUnchanged], by simp [emitLineUnchanged], name, hn, ?_⟩
-    unfold emitLineUnchanged direct emit flushMP fileFields fieldsOfDiffLine
+    refine ⟨rfl, by simp [emitLineUnchanged], by simp [emitLineUnchanged], ?_⟩
+    unfold emitLineUnchanged direct emit flushMP fileFields fieldsOfDiffLine diffLineFields
     repeat' split
     all_goals rfl
 
